@@ -78,7 +78,80 @@ func (pw *plWalker) isData(v ssa.Value) bool {
 		}
 		break
 	}
-	return v == ssa.Value(pw.data)
+	if v == ssa.Value(pw.data) {
+		return true
+	}
+	// the parameter captured by a closure lives in a cell that is stored once
+	if ld, ok := v.(*ssa.UnOp); ok && ld.Op == token.MUL {
+		if al, ok := ld.X.(*ssa.Alloc); ok {
+			return pw.dataCell(al)
+		}
+	}
+	return false
+}
+
+func (pw *plWalker) dataCell(al *ssa.Alloc) bool {
+	n, ok := 0, false
+	for _, ref := range *al.Referrers() {
+		if st, isSt := ref.(*ssa.Store); isSt && st.Addr == ssa.Value(al) {
+			n++
+			if st.Val == ssa.Value(pw.data) {
+				ok = true
+			}
+		}
+	}
+	return ok && n == 1
+}
+
+// closureGuard: err := g(a0, a1) where g is a local closure of the shape
+// `if len(data)-p0 < p1 { return error }; return nil` over the captured data.
+func (pw *plWalker) closureGuard(v ssa.Value) (a0, a1 ssa.Value, ok bool) {
+	call, isCall := v.(*ssa.Call)
+	if !isCall || len(call.Call.Args) != 2 {
+		return nil, nil, false
+	}
+	mc, isMC := call.Call.Value.(*ssa.MakeClosure)
+	if !isMC {
+		return nil, nil, false
+	}
+	g, isFn := mc.Fn.(*ssa.Function)
+	if !isFn || len(g.Params) != 2 || len(g.Blocks) == 0 {
+		return nil, nil, false
+	}
+	// the captured cell must be the data cell
+	capt := false
+	for _, b := range mc.Bindings {
+		if al, isAl := b.(*ssa.Alloc); isAl && pw.dataCell(al) {
+			capt = true
+		}
+	}
+	if !capt {
+		return nil, nil, false
+	}
+	iff, isIf := g.Blocks[0].Instrs[len(g.Blocks[0].Instrs)-1].(*ssa.If)
+	if !isIf {
+		return nil, nil, false
+	}
+	bo, isB := iff.Cond.(*ssa.BinOp)
+	if !isB || bo.Op != token.LSS || bo.Y != ssa.Value(g.Params[1]) {
+		return nil, nil, false
+	}
+	sub, isSub := bo.X.(*ssa.BinOp)
+	if !isSub || sub.Op != token.SUB || sub.Y != ssa.Value(g.Params[0]) {
+		return nil, nil, false
+	}
+	if _, isLen := core.IsLen(sub.X); !isLen {
+		return nil, nil, false
+	}
+	// the true branch returns a non-nil error, the false branch nil
+	okShape := false
+	if ret, isRet := g.Blocks[0].Succs[1].Instrs[len(g.Blocks[0].Succs[1].Instrs)-1].(*ssa.Return); isRet && len(ret.Results) == 1 && core.IsNilConst(ret.Results[0]) {
+		okShape = true
+	}
+	if !okShape {
+		return nil, nil, false
+	}
+	return call.Call.Args[0], call.Call.Args[1], true
 }
 
 func (pw *plWalker) lenOfData(v ssa.Value) bool {
@@ -137,6 +210,27 @@ func (pw *plWalker) lenFact(cond ssa.Value, truth bool, st *plState) {
 			st.unknown = true
 		}
 		return
+	}
+	if (bo.Op == token.NEQ || bo.Op == token.EQL) && (core.IsNilConst(bo.X) || core.IsNilConst(bo.Y)) {
+		ev := bo.X
+		if core.IsNilConst(bo.X) {
+			ev = bo.Y
+		}
+		if a0, a1, isG := pw.closureGuard(ev); isG {
+			isNil := (bo.Op == token.EQL) == truth
+			if isNil {
+				v0, k0 := pw.evalInt(a0, st.np, 0)
+				v1, k1 := pw.evalInt(a1, st.np, 0)
+				if k0 && k1 {
+					if int(v0+v1) > st.lenLB {
+						st.lenLB = int(v0 + v1)
+					}
+				} else {
+					st.unknown = true
+				}
+			}
+			return
+		}
 	}
 	op := bo.Op
 	var other ssa.Value
@@ -302,11 +396,11 @@ func pathLenScan(c *core.Ctx, r *core.Rule) {
 			var idx ssa.Value
 			switch x := ins.(type) {
 			case *ssa.IndexAddr:
-				if x.X == ssa.Value(d.Data) {
+				if _, isSl := x.X.Type().Underlying().(*types.Slice); isSl {
 					idx = x.Index
 				}
 			case *ssa.Slice:
-				if x.X == ssa.Value(d.Data) {
+				if _, isSl := x.X.Type().Underlying().(*types.Slice); isSl {
 					idx = x.High
 				}
 			}
